@@ -328,6 +328,8 @@ def validate(units, obs, module='VTLOperators_Trace', cfg='VTLOperators_Trace.cf
     trace = []
     for u, o in zip(units, obs):
         trace.append({'id': u['id'], 'env': u['env'], 'term': u['term'], 'obs': _strip_obs(o), 'cc': bool(u.get('cc', True))})
+        if 'rules' in u:
+            trace[-1]['rules'] = u['rules']
     return _validate_batch(trace, module, cfg, workers)
 
 
